@@ -176,3 +176,65 @@ impl Seek for FaultyRW {
         Ok(self.pos)
     }
 }
+
+/// A shared, recording in-memory Write + Seek (+ Read) sink: the harness keeps a handle so
+/// that it can snapshot the bytes while a writer still owns the other handle.
+#[derive(Clone, Default)]
+pub struct SharedBuf {
+    pub inner: std::rc::Rc<std::cell::RefCell<SharedInner>>,
+}
+#[derive(Default)]
+pub struct SharedInner {
+    pub data: Vec<u8>,
+    pub pos: usize,
+    /// (kind, offset, len) of every underlying call, in order
+    pub calls: Vec<(&'static str, usize, usize)>,
+}
+impl SharedBuf {
+    pub fn with_prefix(prefix: Vec<u8>) -> Self {
+        let pos = prefix.len();
+        SharedBuf { inner: std::rc::Rc::new(std::cell::RefCell::new(SharedInner { data: prefix, pos, calls: vec![] })) }
+    }
+    pub fn snapshot(&self) -> Vec<u8> {
+        self.inner.borrow().data.clone()
+    }
+    pub fn calls(&self) -> Vec<(&'static str, usize, usize)> {
+        self.inner.borrow().calls.clone()
+    }
+}
+impl Write for SharedBuf {
+    fn write(&mut self, buf: &[u8]) -> std::io::Result<usize> {
+        let mut s = self.inner.borrow_mut();
+        let p = s.pos;
+        if s.data.len() < p + buf.len() {
+            s.data.resize(p + buf.len(), 0);
+        }
+        s.data[p..p + buf.len()].copy_from_slice(buf);
+        s.pos += buf.len();
+        s.calls.push(("write", p, buf.len()));
+        Ok(buf.len())
+    }
+    fn flush(&mut self) -> std::io::Result<()> {
+        let mut s = self.inner.borrow_mut();
+        let p = s.pos;
+        s.calls.push(("flush", p, 0));
+        Ok(())
+    }
+}
+impl Seek for SharedBuf {
+    fn seek(&mut self, p: SeekFrom) -> std::io::Result<u64> {
+        let mut s = self.inner.borrow_mut();
+        let np: i64 = match p {
+            SeekFrom::Start(o) => o as i64,
+            SeekFrom::Current(d) => s.pos as i64 + d,
+            SeekFrom::End(d) => s.data.len() as i64 + d,
+        };
+        if np < 0 {
+            return Err(std::io::Error::new(std::io::ErrorKind::InvalidInput, "negative seek"));
+        }
+        s.pos = np as usize;
+        let pp = s.pos;
+        s.calls.push(("seek", pp, 0));
+        Ok(np as u64)
+    }
+}
